@@ -211,11 +211,9 @@ func (c *Conn) waitCloseHandshake() error {
 		return c.peerCloseErr
 	}
 
-	for i := int64(0); i < c.msgReader.payloadLength; i++ {
-		_, err := c.br.ReadByte()
-		if err != nil {
-			return err
-		}
+	err = c.discardPayload(ctx, c.msgReader.payloadLength)
+	if err != nil {
+		return err
 	}
 
 	for {
@@ -224,13 +222,29 @@ func (c *Conn) waitCloseHandshake() error {
 			return err
 		}
 
-		for i := int64(0); i < h.payloadLength; i++ {
-			_, err := c.br.ReadByte()
-			if err != nil {
-				return err
-			}
+		err = c.discardPayload(ctx, h.payloadLength)
+		if err != nil {
+			return err
 		}
 	}
+}
+
+// discardPayload reads and drops n payload bytes. The reads are bounded by ctx
+// like every other read of the connection.
+func (c *Conn) discardPayload(ctx context.Context, n int64) error {
+	var buf [512]byte
+	for n > 0 {
+		p := buf[:]
+		if int64(len(p)) > n {
+			p = p[:n]
+		}
+		m, err := c.readFramePayload(ctx, p)
+		n -= int64(m)
+		if err != nil {
+			return err
+		}
+	}
+	return nil
 }
 
 func (c *Conn) waitGoroutines() error {
